@@ -17,17 +17,17 @@ SCHEMA = os.path.join(vlib.ROOT, "schemas", "c21.json")
 CODES = {"D": "DevVarDefaultPrinted"}
 
 
-def cfg_text(steps, budget, listlen, styles, tail):
+def cfg_text(steps, budget, listlen, styles, aliases, tail):
     return ('CONSTANT MaxSteps = %d\nCONSTANT ShapeBudget = %d\nCONSTANT MaxListLen = %d\n'
-            'CONSTANT VarModes = {"supplied", "default", "both"}\nCONSTANT Styles = {%s}\nINIT Init\nNEXT Next\n%s' %
-            (steps, budget, listlen, ", ".join('"%s"' % s for s in styles), tail))
+            'CONSTANT VarModes = {"supplied", "default", "both"}\nCONSTANT Styles = {%s}\nCONSTANT StepAliases = {%s}\nINIT Init\nNEXT Next\n%s' %
+            (steps, budget, listlen, ", ".join('"%s"' % s for s in styles), ", ".join('"%s"' % s for s in aliases), tail))
 
 
 def body(c):
     if c.quick:
-        configs = [(2, 1, 1, ["anon", "namedAlias"])]
+        configs = [(2, 1, 1, ["anon", "namedAlias"], ["none", "fresh", "sibling"])]
     else:   # deep shapes with single-element lists, and shallower shapes with one- and two-element lists; all four styles
-        configs = [(3, 2, 1, ["anon", "namedAlias"]), (3, 1, 2, ["named", "anonAlias"])]
+        configs = [(3, 2, 1, ["anon", "namedAlias"], ["none", "fresh"]), (3, 1, 2, ["named", "anonAlias"], ["none", "sibling"])]
     rows = set()
     for k, bounds in enumerate(configs):
         gcfg = c.path("Gen%d.cfg" % k)
@@ -36,12 +36,12 @@ def body(c):
         g = vlib.run_tlc("gql/Redaction.tla", gcfg, env={"SCHEMA": SCHEMA}, workers=8, timeout=3000, keep_lines=20, xmx="12g")
         if g.invariant_violated:
             raise vlib.ToolError("design-level failure in Redaction.tla: " + str(g.invariant_violated))
-        c.add_tlc("M+G Redaction (steps<=%d, shape budget %d, lists<=%d, styles %s): generator sound, ideal printer redacts, cases" % (bounds[0], bounds[1], bounds[2], "/".join(bounds[3])), g)
+        c.add_tlc("M+G Redaction (steps<=%d, shape budget %d, lists<=%d, styles %s, ancestor aliases %s): generator sound, ideal printer redacts, cases" % (bounds[0], bounds[1], bounds[2], "/".join(bounds[3]), "/".join(bounds[4])), g)
         rows |= set(t[1] for t in g.tagged("REPLAY"))
     rows = sorted(rows)
     total = len(rows)
     exhaustive = True
-    cap = 8000 if c.quick else 70000
+    cap = 12000 if c.quick else 90000
     if total > cap:
         rows = random.Random(c.seed).sample(rows, cap)
         rows.sort()
@@ -92,10 +92,11 @@ def body(c):
                      "root (field, `... { }`, `... on T { }`, named fragment on T, every overlapping T) to every field with arguments; arguments "
                      "take every value shape of their type with depth <= max(0, %d - chain length) (lists of 1..%d items, nested input objects, "
                      "optional parts present/absent), at most one value node per argument lifted into a variable (supplied / default only / "
-                     "default and supplied), styles %s: %d requests%s, each executed; distinct sentinels in all secret leaves (%d searched); "
+                     "default and supplied), styles (named/anonymous operation, target field aliased or not; ancestor fields of the chain plain / under a fresh "
+                     "alias / under the name of another field of the same type) %s: %d requests%s, each executed; distinct sentinels in all secret leaves (%d searched); "
                      "every case holds >= 1 secret leaf; distinct by (document text, variables)"
                      % (max(b[0] for b in configs), max(b[1] for b in configs), max(b[2] for b in configs),
-                        " + ".join("(steps<=%d, budget %d, lists<=%d: %s)" % (b[0], b[1], b[2], "/".join(b[3])) for b in configs), total, "" if exhaustive else " (seeded sample of %d)" % len(cases), nsent))
+                        " + ".join("(steps<=%d, budget %d, lists<=%d: %s; ancestor fields %s)" % (b[0], b[1], b[2], "/".join(b[3]), "/".join(b[4])) for b in configs), total, "" if exhaustive else " (seeded sample of %d)" % len(cases), nsent))
     for o in [x for x in obs if verdicts[x["id"]][0] == "ok"][:1] + [x for x in obs if verdicts[x["id"]][0] != "ok"][:2]:
         c.sample({"text": o["text"], "vars": o["vars"], "logText": o["obs"]["logText"], "verdict": verdicts[o["id"]][0]})
     c.assumptions += ["the harness document printer is trusted", "schemas/c21.json mirrors the harness schema incl. secret flags (structure compared with the live registry at start-up; a secret flag the registry holds differently is reported as drift and judged through the logged text)",
